@@ -620,9 +620,10 @@ class ConcatScenario(BaseScenario):
             where = " < ".join(f"{f.name}:{f.lineno}" for f in frames[-4:][::-1])
             del err, frames
             if expect == "ok":
+                unread = bool(getattr(w, "last_group", None) in getattr(w, "unread_copies", ()))
                 if w.prop == "C05" and w.removed:
                     raise Violation("C05", "later_op_fails", f"after a removal, {what} raised {name}: {text} @ {where}",
-                                    {"op": what.split(" ")[0], "exc": name}) from None
+                                    {"op": what.split(" ")[0], "exc": name, **({"unread_copy": True} if unread else {})}) from None
                 w.suspect = f"{what}: unexpected {name}: {text} @ {where}"
                 return None, "raised:" + name
             return None, "refused:" + name
@@ -1219,6 +1220,7 @@ class ConcatScenario(BaseScenario):
             w.created_groups = {nguid}
             w.touched = {nguid}
             w.sim.probe("copy_group_cross_unread")
+            w.__dict__.setdefault("unread_copies", set()).add(nguid)
             return "ok"
         live_holes = [c for c in new.children if snapshot.kind_of(c) == "object"]
         src_by_name = {}
